@@ -12,7 +12,7 @@ from vf import strategies as vs
 from vf.cms_common import DRAWS
 from vf.common import CEIL, Violation
 from vf.hh_common import none_threshold_ok
-from vf.world import CLASS_OF, make_sketch, plant, snapshot, snap_diff, snap_equal, sut
+from vf.world import CLASS_OF, interfere, make_sketch, plant, snapshot, snap_diff, snap_equal, sut
 
 import sketchnu.countmin as cmmod
 from sketchnu.countmin import CountMinLinear, CountMinLog8, CountMinLog16
@@ -159,7 +159,9 @@ def run_case(case):
         for r, ld in enumerate(case["loads"]):
             path = os.path.join(tmp, f"r{r}.npz")
             sut(orig.save, path)
+            interfere(cfg)  # sketches of other configurations are built and used between save and load
             copy = load_via(kind, path, ld["via"], ld["shm"])
+            interfere(cfg)
             compare(orig, copy, kind, U, f"round {r} after load({ld['via']}, shm={ld['shm']})")
             second = load_via(kind, path, "class", False)
             sut(second.merge, orig)  # must not raise: same parameters
